@@ -298,6 +298,7 @@ func (m *meta) handle() {
 			// left the termination to it
 			reason = m.exitReason
 			terminating = true
+			lib.VerifPoint("meta.h.del", m)
 			m.p.node.aliases.Delete(m.id)
 			m.p.node.RouteTerminateAlias(m.id, reason)
 			m.behavior.Terminate(reason)
